@@ -23,6 +23,9 @@ def scenarios(c, pid):
                 clients = rng.range(1, 5)
                 calls = rng.range(5, 40 if c.thorough else 24)
                 res.append("rpccalls.e2e %d %s %d %d %d %d %s" % (rng.below(2 ** 40), net, cr, workers, clients, calls, mode))
+        for i in range(24 if c.thorough else 4):
+            net, cr = combos[i % 4]
+            res.append("rpccalls.e2e %d %s %d 4 %d 1 fin" % (rng.below(2 ** 40), net, cr, rng.range(1, 3)))
     else:
         n = 120 if c.thorough else 5
         for i in range(n):
@@ -97,7 +100,8 @@ def run_e2e(c, pid):
             nviol += 1
     c.extra["e2e_rule"] = ("%d end-to-end scenarios (%s): random seeds x {tcp4 loopback, unix socket} x {no key, AES key + forced encryption} "
                            "x workers 0..8 x 1..9 clients x 5..40 concurrent calls each; call fates ok / handler error / slow / "
-                           "client deadline (context or request extra) / client cancel; modes run, closeserver, closeclient, mem (request buffer size "
+                           "client deadline (context or request extra) / client cancel; modes run, closeserver, closeclient, fin (graceful Server.Shutdown while calls are in flight that end by their local "
+                           "deadline; CloseWait must return and later calls must complete), mem (request buffer size "
                            "2.4..8 MB, so a few small requests exhaust the 16 MB request-memory floor); harness built with -race, GORACE=halt_on_error=1" % (
                                len(lines), pid))
     return nviol
